@@ -1506,6 +1506,49 @@ def _mutables():
     return out
 
 
+def exercise_defaults(ctx):
+    """call every FusionART / FALCON entry point that has a mutable default argument WITH that default, on two models
+    of different channel layouts one after the other (and pass caller-owned lists): a default or a caller's list
+    that is written to would carry one model's layout into the other"""
+    from artlib import FusionART, FuzzyART, FALCON, TD_FALCON
+    r = gen.rng_for(ctx.seed, "C19/defaults", 0)
+    mk = lambda rho=0.5: FuzzyART(rho, 2.0 ** -10, 1.0)   # noqa
+    models = []
+    for k in (2, 3, 2):
+        f = FusionART([mk() for _ in range(k)], [1.0 / k] * k, [2] * k)
+        raw = [np.array([[r.randint(0, 8) / 8] for _ in range(9)]) for _ in range(k)]
+        with quiet():
+            X = f.prepare_data(raw)
+            f.fit(X)
+        models.append((f, X, raw))
+    for f, X, raw in models:
+        mine = [-1]
+        with quiet():
+            want = f.predict_regression(X, target_channels=[f.n - 1])
+            got_default = f.predict_regression(X)
+            got_mine = f.predict_regression(X, target_channels=mine)
+            f.predict(X)
+            f.step_pred(X[0])
+            parts = f.split_channel_data(X)
+            f.join_channel_data(parts)
+            f.restore_data(X)
+        rep = {"channels": f.n}
+        if mine != [-1]:
+            ctx.issue("violation", "FusionART.predict_regression:caller-list-mutated",
+                      f"the caller's target_channels list [-1] became {mine}", rep)
+        if not (np.array_equal(np.asarray(want), np.asarray(got_default)) and np.array_equal(np.asarray(want), np.asarray(got_mine))):
+            ctx.issue("violation", "FusionART.predict_regression:default-target-depends-on-other-instances",
+                      f"on a {f.n}-channel model predict_regression(X) differs from predict_regression(X, target_channels=[{f.n - 1}]) "
+                      "after another model of a different layout was used", rep)
+        ctx.cov.hit("defaults-exercised")
+    for cls in (FALCON, TD_FALCON):
+        with quiet():
+            a = cls(mk(), mk(), mk(), channel_dims=[2, 2, 2])
+            b = cls(mk(), mk(), mk(), channel_dims=[2, 2, 2])
+        if a.fusion_art.gamma_values is b.fusion_art.gamma_values and isinstance(a.fusion_art.gamma_values, list):
+            ctx.cov.hit("falcon:default-gamma-list-shared(by-identity)")
+
+
 def chk_shared_defaults(ctx, before: dict):
     for key, (live, saved) in before.items():
         ctx.cov.hit("j:shared-default-checked")
@@ -1610,6 +1653,7 @@ def run(ctx):
                 except Exception as e:  # the machinery must not hide a crash as a pass
                     raise RuntimeError(f"C19 sub-check {tag} crashed on {S.name} index {idx}: {e!r}") from e
     chk_replace_and_nested(ctx)
+    exercise_defaults(ctx)
     chk_shared_defaults(ctx, shared)
     ctx.cov.sample({"subjects": [S.name for S in subjects], "rounds_per_subject": rounds,
                     "shared_mutable_defaults_watched": sorted(shared)})
